@@ -4,6 +4,7 @@ import Srctools.Model.C16
 import Srctools.Model.C16Bin
 import Srctools.Model.C16Lazy
 import Srctools.Model.C16KV
+import Srctools.Model.C16Ent
 import Srctools.Gen.Tok
 import Srctools.Gen.Fgdw
 /-! Driver for the C16 models.
@@ -253,6 +254,63 @@ def kvHandle (op : String) (j : Json) : Except String Json := do
     | .error e => pure (Json.mkObj [("run", runJson r), ("perr", Json.num (JsonNumber.fromNat e.code))])
   | _ => throw s!"unknown op {op}"
 
+/-! whole entities / files -/
+open C16.KV in
+def entRecOf (j : Json) : Except String EntRec := do
+  let a ← j.getArr?
+  let helpers ← (← (a[4]!).getArr?).toList.mapM fun h => do
+    let q ← h.getArr?
+    pure ({ name := ← Wire.strOfCodes (q[0]!), args := ← strList (q[1]!) } : Helper)
+  let groups ← (← (a[6]!).getArr?).toList.mapM fun g => do
+    let q ← g.getArr?
+    let vs ← (← (q[1]!).getArr?).toList.mapM fun v => do
+      let w ← v.getArr?
+      pure ((← strList (w[0]!)), (← kvRecOf (w[1]!)))
+    pure ({ key := ← Wire.strOfCodes (q[0]!), variants := vs } : Group)
+  let ios (x : Json) : Except String (List (List (List Char) × IORec)) := do
+    (← x.getArr?).toList.mapM fun v => do
+      let w ← v.getArr?
+      pure ((← strList (w[0]!)), (← ioRecOf (w[1]!)))
+  let res ← match a[10]! with
+    | Json.null => pure none
+    | r => do
+      let l ← (← r.getArr?).toList.mapM fun x => do
+        let q ← x.getArr?
+        pure ({ file := ← Wire.strOfCodes (q[0]!), typ := ← (q[1]!).getNat?, tags := ← strList (q[2]!) } : C16.KV.Res)
+      pure (some l)
+  pure { kind := ← (a[0]!).getNat?, classname := ← Wire.strOfCodes (a[1]!), bases := ← strList (a[2]!),
+         alias := ← (a[3]!).getBool?, helpers := helpers, desc := ← Wire.strOfCodes (a[5]!), groups := groups,
+         kvOrder := ← strList (a[7]!), inputs := ← ios (a[8]!), outputs := ← ios (a[9]!), res := res }
+
+open C16.KV in
+def parsedEntJson (e : ParsedEnt) : Json :=
+  Json.arr #[Json.num (JsonNumber.fromNat e.kind), Wire.codesOfStr e.classname, strsJson e.bases, Json.bool e.alias,
+    Json.arr (e.helpers.map fun h => Json.arr #[Wire.codesOfStr h.name, strsJson h.args]).toArray,
+    Wire.codesOfStr e.desc, Json.arr (e.items.map itemJson).toArray,
+    match e.res with
+    | none => Json.null
+    | some l => Json.arr (l.map fun r => Json.arr #[Wire.codesOfStr r.file, Json.num (JsonNumber.fromNat r.typ), strsJson r.tags]).toArray]
+
+/-- {"op":"entexport","ext":b,"label":b,"fold":…,"up":…,"ents":[E…]} → {"text":[cp]}   (exportFile)
+    {"op":"fileparse","s":[cp],"fold":…,"up":…} → {"run":…,"ents":[PE…]} | {"run":…,"perr":code} -/
+def entHandle (op : String) (j : Json) : Except String Json := do
+  let fold ← tableOf (← j.getObjVal? "fold")
+  let up ← tableOf (← j.getObjVal? "up")
+  let P : C16.KV.ParseCfg := { tt := Gen.Fgdw.typeTab, fold := fold, up := up }
+  match op with
+  | "entexport" =>
+    let c ← expCfgOf j
+    let ents ← (← (← j.getObjVal? "ents").getArr?).toList.mapM entRecOf
+    pure (Json.mkObj [("text", Wire.codesOfStr (C16.KV.exportFile c Gen.Fgdw.entTab P ents))])
+  | "fileparse" =>
+    let s ← Wire.strOfCodes (← j.getObjVal? "s")
+    let r := run Gen.Tok.tables Gen.Fgdw.parseOpts fold s
+    let tks := tksOf r
+    match C16.KV.parseFile P Gen.Fgdw.entTab (tks.length + 1) tks [] with
+    | .ok ents => pure (Json.mkObj [("run", runJson r), ("ents", Json.arr (ents.map parsedEntJson).toArray)])
+    | .error e => pure (Json.mkObj [("run", runJson r), ("perr", Json.num (JsonNumber.fromNat e.code))])
+  | _ => throw s!"unknown op {op}"
+
 def handle (j : Json) : Except String Json := do
   let op ← j.getObjValAs? String "op"
   match op with
@@ -304,6 +362,8 @@ def handle (j : Json) : Except String Json := do
     | some (e, rest) => pure (Json.mkObj [("ent", entJson e), ("rest", Json.num (JsonNumber.fromNat rest.length))])
     | none => pure (Json.mkObj [("ent", Json.null), ("rest", Json.num (JsonNumber.fromNat 0))])
   | "lazy" => lazyHandle j
+  | "entexport" => entHandle op j
+  | "fileparse" => entHandle op j
   | _ => kvHandle op j
 
 def main : IO Unit := Wire.main handle
